@@ -1583,6 +1583,81 @@ func c16Execute(w *World, r *Report) {
 		if nTrue != 1 {
 			falseOtherwise = false
 		}
+		// the library form: return slices.ContainsFunc(root.Commands(), func(c) bool { return c.Name() == arg })
+		if !literalCmp && usesCommands {
+			okLib := false
+			forEachInstr(f, func(_ *ssa.BasicBlock, ins ssa.Instruction) {
+				ret, ok := ins.(*ssa.Return)
+				if !ok || len(ret.Results) != 1 {
+					return
+				}
+				call, ok := stripIdentity(ret.Results[0]).(*ssa.Call)
+				if !ok || call.Call.StaticCallee() == nil || !strings.HasPrefix(call.Call.StaticCallee().String(), "slices.ContainsFunc") || len(call.Call.Args) != 2 {
+					return
+				}
+				if cc, ok := stripIdentity(call.Call.Args[0]).(*ssa.Call); !ok || cc.Call.StaticCallee() == nil || cc.Call.StaticCallee().Name() != "Commands" {
+					return
+				}
+				mc, ok := stripIdentity(call.Call.Args[1]).(*ssa.MakeClosure)
+				if !ok {
+					return
+				}
+				pred, _ := mc.Fn.(*ssa.Function)
+				if pred == nil || len(pred.Params) != 1 {
+					return
+				}
+				// which captured variable is f's argument?
+				argFree := map[ssa.Value]bool{}
+				for j, b := range mc.Bindings {
+					bv := stripIdentity(b)
+					isArg := bv == ssa.Value(f.Params[0])
+					if al, ok := bv.(*ssa.Alloc); ok && al.Referrers() != nil {
+						for _, ref := range *al.Referrers() {
+							if st, ok := ref.(*ssa.Store); ok && st.Addr == ssa.Value(al) && stripIdentity(st.Val) == ssa.Value(f.Params[0]) {
+								isArg = true
+							}
+						}
+					}
+					if isArg && j < len(pred.FreeVars) {
+						argFree[pred.FreeVars[j]] = true
+					}
+				}
+				good := false
+				forEachInstr(pred, func(_ *ssa.BasicBlock, i2 ssa.Instruction) {
+					r2, ok := i2.(*ssa.Return)
+					if !ok || len(r2.Results) != 1 {
+						return
+					}
+					bo, ok := stripIdentity(r2.Results[0]).(*ssa.BinOp)
+					if !ok || bo.Op != token.EQL {
+						return
+					}
+					isName := func(v ssa.Value) bool {
+						c, ok := stripIdentity(v).(*ssa.Call)
+						return ok && c.Call.StaticCallee() != nil && c.Call.StaticCallee().Name() == "Name" && len(c.Call.Args) == 1 && stripIdentity(c.Call.Args[0]) == ssa.Value(pred.Params[0])
+					}
+					isArgV := func(v ssa.Value) bool {
+						v = stripIdentity(v)
+						if argFree[v] {
+							return true
+						}
+						if ld, ok := v.(*ssa.UnOp); ok && ld.Op == token.MUL && argFree[ld.X] {
+							return true
+						}
+						return false
+					}
+					if (isName(bo.X) && isArgV(bo.Y)) || (isName(bo.Y) && isArgV(bo.X)) {
+						good = true
+					}
+				})
+				if good {
+					okLib = true
+				}
+			})
+			if okLib {
+				return true, "slices.ContainsFunc over Commands() comparing Name() with the argument"
+			}
+		}
 		return usesCommands && usesName && !literalCmp && trueOnMatch && falseOtherwise,
 			fmt.Sprintf("Commands()=%v Name()=%v literal-compare=%v returns-true-on-match=%v false-otherwise=%v", usesCommands, usesName, literalCmp, trueOnMatch, falseOtherwise)
 	}
